@@ -95,9 +95,17 @@ def _structure(
         if sig in head_nodes:
             return head_nodes[sig]
         # Recurse
-        sub_calls: List[Tuple[List[Node], FunctionInteractions]] = [
-            (traverse(sub_fis), sub_fis) for sub_fis in fis_.parsed_body
-        ]
+        # The function given to keep(path, fun) is also seen as a plain reference to fun (without a path),
+        # right after the kept call. Traversing it again would attach the nodes kept inside fun to the
+        # caller of keep, as if they were its direct dependencies.
+        kept_funs = set()
+        sub_calls: List[Tuple[List[Node], FunctionInteractions]] = []
+        for sub_fis in fis_.parsed_body:
+            if sub_fis.store_path is None and sub_fis.fun_path in kept_funs:
+                continue
+            if sub_fis.store_path is not None:
+                kept_funs.add(sub_fis.fun_path)
+            sub_calls.append((traverse(sub_fis), sub_fis))
         sub_nodes: List[Node] = sorted(
             list(
                 dict(
